@@ -234,7 +234,8 @@ def run_phys(case, seed):
     scale = np.maximum(np.abs(res[False]), 1e-9)
     e = float((np.abs(res[True] - res[False]) / scale).max())
     nontriv = nir[True] < nir[False]
-    if e > 1e-8:
+    # with NAC the Born charges are symmetrised numerically (1e-9 level) before they enter D(q)
+    if e > (1e-6 if case.get("nac") else 1e-8):
         return dict(ok=False, sig="C09/phys/reduced-vs-full/" + tag, resid=e, nontrivial=nontriv,
                     msg="%s mesh=%s shift=%s gc=%s tr=%s: sums with mesh symmetry (%d ir-points) differ from the full mesh (%d) by %.3g (rel)" % (
                         case["xtal"], case["mesh"], shift, case["gc"], case["tr"], nir[True], nir[False], e))
